@@ -1,7 +1,210 @@
 import Driver.Proto
-/- driver commands of area `install` (stub until the area is built) -/
-namespace Driver.Install
+import MesonModel.Install.Model
+/-
+Driver commands of area `install`.
 
-def handle (cmd : String) (fs : List String) : String := "bad-op"
+Small commands take ordinary protocol fields (strings as space-separated code points).
+`hist` takes one S-expression (tokens separated by single spaces; atoms: `s<cp>.<cp>…` strings,
+decimal numbers, `-` for None, `T`/`F`) describing plan, initial tree, listing root and a history of
+operations, and answers with one result per operation separated by `|`.
+-/
+namespace Driver.Install
+open MesonModel.Install Driver
+
+inductive Sx
+  | atom (s : String)
+  | list (xs : List Sx)
+deriving Inhabited
+
+partial def parseSx : List String → Sx × List String
+  | [] => (.atom "", [])
+  | "(" :: rest =>
+    let rec go (acc : List Sx) (ts : List String) : Sx × List String :=
+      match ts with
+      | [] => (.list acc.reverse, [])
+      | ")" :: r => (.list acc.reverse, r)
+      | _ =>
+        let (x, r) := parseSx ts
+        go (x :: acc) r
+    go [] rest
+  | t :: rest => (.atom t, rest)
+
+def decS (a : String) : Str :=
+  -- `s47.116` → "/t"
+  ((a.drop 1).toString.splitOn ".").filterMap (fun w => if w.isEmpty then none else w.toNat?.map Char.ofNat)
+
+def encS (s : Str) : String := "s" ++ ".".intercalate (s.map (fun c => toString c.toNat))
+
+def sxStr : Sx → Str
+  | .atom a => decS a
+  | _ => []
+
+def sxNat : Sx → Nat
+  | .atom a => a.toNat?.getD 0
+  | _ => 0
+
+def sxBool : Sx → Bool
+  | .atom "T" => true
+  | _ => false
+
+def sxOpt {α} (f : Sx → α) : Sx → Option α
+  | .atom "-" => none
+  | x => some (f x)
+
+def sxList : Sx → List Sx
+  | .list xs => xs
+  | _ => []
+
+def sxMode : Sx → Option FileMode
+  | .list [_, p, c] => some { perms := sxOpt sxNat p, chown := sxBool c }
+  | _ => none
+
+def sxSrc : Sx → Src
+  | .list [.atom "f", m, d, t] => .file (sxNat m) (sxNat d) (sxNat t)
+  | .list [.atom "d"] => .dir
+  | .list [.atom "ld", t] => .linkDangling (sxStr t)
+  | .list [.atom "lf", t, m, d, mt] => .linkFile (sxStr t) (sxNat m) (sxNat d) (sxNat mt)
+  | .list [.atom "lD", t] => .linkDir (sxStr t)
+  | _ => .missing
+
+def sxDirEnt : Sx → DirEnt
+  | .list [.atom "L", t] => .link (sxStr t)
+  | .list [_, m] => .real (sxNat m)
+  | _ => .real 0
+
+def sxWalkRec : Sx → WalkRec
+  | .list [_, rel, rm, ds, fs] =>
+    { rel := (sxList rel).map sxStr, rootMode := sxNat rm,
+      dirs := (sxList ds).filterMap (fun x => match x with
+        | .list [n, e] => some (sxStr n, sxDirEnt e) | _ => none),
+      files := (sxList fs).filterMap (fun x => match x with
+        | .list [n, e] => some (sxStr n, sxSrc e) | _ => none) }
+  | _ => { rel := [], rootMode := 0, dirs := [], files := [] }
+
+def sxData : Sx → Option DataEntry
+  | .list [_, p, src, ip, m, sp, tag, fo] =>
+    some { path := sxStr p, src := sxSrc src, installPath := sxStr ip, mode := sxMode m,
+           subproject := sxStr sp, tag := sxOpt sxStr tag, follow := sxOpt sxBool fo }
+  | _ => none
+
+def sxExclude : Sx → Option (List Str × List Str)
+  | .list [a, b] => some ((sxList a).map sxStr, (sxList b).map sxStr)
+  | _ => none
+
+def sxSubdir : Sx → Option SubdirEntry
+  | .list [_, p, ip, m, ex, sp, tag, fo, w] =>
+    some { path := sxStr p, installPath := sxStr ip, mode := sxMode m, exclude := sxExclude ex,
+           subproject := sxStr sp, tag := sxOpt sxStr tag, follow := sxOpt sxBool fo,
+           walk := (sxList w).map sxWalkRec }
+  | _ => none
+
+def sxTarget : Sx → Option TargetEntry
+  | .list [_, p, src, od, m, sp, tag, opt, w] =>
+    some { fname := sxStr p, src := sxSrc src, outdir := sxStr od, mode := sxMode m,
+           subproject := sxStr sp, tag := sxOpt sxStr tag, optional := sxBool opt,
+           walk := (sxList w).map sxWalkRec }
+  | _ => none
+
+def sxEmptydir : Sx → Option EmptyDirEntry
+  | .list [_, p, m, sp, tag] =>
+    some { path := sxStr p, mode := sxMode m, subproject := sxStr sp, tag := sxOpt sxStr tag }
+  | _ => none
+
+def sxSymlink : Sx → Option SymlinkEntry
+  | .list [_, t, n, ip, sp, tag] =>
+    some { target := sxStr t, name := sxStr n, installPath := sxStr ip, subproject := sxStr sp,
+           tag := sxOpt sxStr tag }
+  | _ => none
+
+def sxPlan : Sx → Option Plan
+  | .list [_, bd, pf, um, sd, tg, hd, mn, ed, dt, sl] =>
+    some { buildDir := sxStr bd, pfx := sxStr pf, umask := sxOpt sxNat um,
+           subdirs := (sxList sd).filterMap sxSubdir, targets := (sxList tg).filterMap sxTarget,
+           headers := (sxList hd).filterMap sxData, man := (sxList mn).filterMap sxData,
+           emptydirs := (sxList ed).filterMap sxEmptydir, data := (sxList dt).filterMap sxData,
+           symlinks := (sxList sl).filterMap sxSymlink }
+  | _ => none
+
+def sxNode : Sx → Option (Key × Node)
+  | .list [p, .atom "d", m] => some (keyOfAbs (sxStr p), .dir (sxNat m))
+  | .list [p, .atom "f", m, d, t] => some (keyOfAbs (sxStr p), .file (sxNat m) (sxNat d) (sxNat t))
+  | .list [p, .atom "l", t] => some (keyOfAbs (sxStr p), .link (sxStr t))
+  | _ => none
+
+def showErr : Option Err → String
+  | none => "ok"
+  | some .meson => "ERR:Meson"
+  | some .exit => "ERR:Exit"
+  | some .os => "ERR:OS"
+  | some .value => "ERR:Value"
+  | some .unsupported => "ERR:Unsupported"
+
+def showNode (k : Key) : Node → String
+  | .dir m => s!"{encS (keyToStr k)}:d:{m}"
+  | .file m d t => s!"{encS (keyToStr k)}:f:{m}:{d}:{t}"
+  | .link t => s!"{encS (keyToStr k)}:l:{encS t}"
+
+def strLe (a b : String) : Bool := decide (a < b) || a == b
+
+/-- canonical listing of everything strictly below `root` -/
+def showTree (root : Key) (fs : FS) : String :=
+  let ents := fs.filterMap (fun e =>
+    if root.isPrefixOf e.1 && e.1 ≠ root && fs.get e.1 == some e.2 then some (showNode e.1 e.2) else none)
+  ",".intercalate (ents.mergeSort strLe)
+
+def showLog (l : List Str) : String := ",".intercalate (l.map encS)
+
+structure HState where
+  fs : FS
+  log : List Str
+  out : List String
+
+def runOp (p : Plan) (root : Key) (h : HState) : Sx → HState
+  | .list [.atom "install", dd, dry, only, tags, skip, amb] =>
+    let o : Opts := { destdir := sxOpt sxStr dd, dryRun := sxBool dry, onlyChanged := sxBool only,
+                      tags := sxOpt sxStr tags, skipSubprojects := sxStr skip, ambientUmask := sxNat amb }
+    let s := install p o h.fs
+    let confined := true
+    { fs := s.fs, log := s.log,
+      out := h.out ++ [s!"E={showErr s.err};L={showLog s.log};T={showTree root s.fs}"] }
+  | .list [.atom "uninstall"] =>
+    let fs := uninstall p.buildDir h.log h.fs
+    { h with fs := fs, out := h.out ++ [s!"E=ok;L=;T={showTree root fs}"] }
+  | _ => { h with out := h.out ++ ["bad-op"] }
+
+def hist (req : String) : String :=
+  let toks := (req.splitOn " ").filter (· ≠ "")
+  match (parseSx toks).1 with
+  | .list [_, plan, .list (_ :: nodes), .list [_, root], .list (_ :: ops)] =>
+    match sxPlan plan with
+    | none => "bad-plan"
+    | some p =>
+      let fs : FS := nodes.filterMap sxNode
+      let h := ops.foldl (runOp p (keyOfAbs (sxStr root))) { fs := fs, log := [], out := [] }
+      "|".intercalate h.out
+  | _ => "bad-request"
+
+def showOptNat : Option Nat → String
+  | none => "None"
+  | some n => toString n
+
+def handle (cmd : String) (fs : List String) : String :=
+  match cmd, fs with
+  | "join", [a, b] => encodeStr (join (decodeStr a) (decodeStr b))
+  | "normpath", [a] => encodeStr (normpath (decodeStr a))
+  | "dirname", [a] => encodeStr (dirname (decodeStr a))
+  | "basename", [a] => encodeStr (basename (decodeStr a))
+  | "djoin", [a, b] => encodeStr (destdirJoin (decodeStr a) (decodeStr b))
+  | "gdp", [d, f, p] => encodeStr (getDestdirPath (decodeStr d) (decodeStr f) (decodeStr p))
+  | "perms", [s] => showOptNat (permsBits (decodeStr s))
+  | "sanitized", [c, u] => toString (sanitizedMode (c.toNat?.getD 0) (u.toNat?.getD 0))
+  | "should", [skip, tags, hasTags, sub, tag, hasTag] =>
+    let cfg : Cfg := { cwd := [], buildDir := [], destdir := [], fullprefix := [], umask := none, procUmask := 0,
+                       dryRun := false, onlyChanged := false,
+                       tags := if hasTags == "1" then (if decodeStr tags = [] then none else some (parseList (decodeStr tags))) else none,
+                       skip := parseList (decodeStr skip) }
+    boolStr (shouldInstall cfg (decodeStr sub) (if hasTag == "1" then some (decodeStr tag) else none))
+  | "hist", [r] => hist r
+  | _, _ => "bad-op"
 
 end Driver.Install
